@@ -275,7 +275,9 @@ def call_external(h: Any, name: str, args: List[AV], kwargs: Dict[str, AV], node
                 return ctx.choose(("random.choice", ctx.new_id()), payload)
         return Term(short, tuple(args), ctx.new_id())
     if short in ("re.compile", "regex.compile"):
-        return Term("re.compile", tuple(args), ctx.new_id())
+        t = Term("re.compile", tuple(args), ctx.new_id())
+        h.regex_module[t.id] = short.split(".")[0]
+        return t
     if short == "iregexp_check.check":
         r = ctx.choose(("iregexp_check", h.key_desc(args[0])), [True, False])
         ctx.log.append(("extcall", short, tuple(args), i.site(node)))
@@ -372,6 +374,7 @@ def convert_number(h: Any, which: str, args: List[AV], node: Any) -> AV:
     if isinstance(v, IntV):
         return v if which == "int" else Term("float", (v,), h.ctx.new_id())
     if isinstance(v, (SymStr, SymChar)):
+        h.ctx.atom_info[(which, "of-str", v.id)] = {"kind": "convert", "which": which, "recv": v}
         r = h.ctx.choose((which, "of-str", v.id), ["ok", "ValueError"])
         if r != "ok":
             raise h.raise_("ValueError", f"invalid literal for {which}()", node)
@@ -540,7 +543,9 @@ def call_method(h: Any, recv: AV, name: str, args: List[AV], kwargs: Dict[str, A
         return Const(recv.value.decode(*[_plain(a) for a in args]))
     if isinstance(recv, (SymStr, SymChar)) or (isinstance(recv, Sym) and name in ("startswith", "endswith", "lower", "upper", "strip", "split", "replace", "encode", "count", "find", "rfind", "join", "lstrip", "rstrip", "isdigit")):
         if name in ("startswith", "endswith", "isdigit", "isalpha", "isspace", "isalnum"):
-            return Const(ctx.choose(("strpred", name, recv.id, repr(args)), [False, True]))
+            key = ("strpred", name, recv.id, repr(args))
+            ctx.atom_info[key] = {"kind": "strpred", "name": name, "recv": recv, "args": list(args)}
+            return Const(ctx.choose(key, [False, True]))
         if name == "encode" and isinstance(recv, SymStr):
             org = recv.origin
             if org and org[0] == "substr":
@@ -670,7 +675,25 @@ def call_method(h: Any, recv: AV, name: str, args: List[AV], kwargs: Dict[str, A
             return call_method(h, PyList([e.value for e in recv.events]), name, args, kwargs, node)
         return Term("streammeth", (recv, name, tuple(args)), ctx.new_id())
     if isinstance(recv, Term) and recv.op == "re.compile" and name in ("match", "fullmatch", "search"):
-        return Term("re." + name, (recv,) + tuple(args), ctx.new_id())
+        if (
+            h.regex_module.get(recv.id) == "re"
+            and len(recv.args) == 1
+            and isinstance(recv.args[0], Const)
+            and all(isinstance(a, Const) for a in args)
+            and not kwargs
+        ):
+            # constant folding: a stdlib regex literal applied to a constant string
+            import re as _re
+
+            m = getattr(_re.compile(recv.args[0].value), name)(*[a.value for a in args])
+            t = Term("re." + name, (recv,) + tuple(args), ctx.new_id())
+            ctx.world[("truth", "term", t.id)] = m is not None
+            if m is not None:
+                h.match_text[t.id] = m.group()
+            return t
+        t = Term("re." + name, (recv,) + tuple(args), ctx.new_id())
+        ctx.atom_info[("truth", "term", t.id)] = {"kind": "regex", "mode": name, "pattern": recv.args[0] if recv.args else None, "subject": args[0] if args else None, "pos": args[1] if len(args) > 1 else None}
+        return t
     if isinstance(recv, Term) and recv.op in ("strmeth", "concat", "fstr", "str", "repr", "join", "json.dumps", "strslice", "canonical"):
         return Term("strmeth", (recv, name, tuple(args)), ctx.new_id())
     if isinstance(recv, (Opaque, Term)):
